@@ -1,5 +1,6 @@
 import Blue.Proofs.Stall
 import Blue.Proofs.Selector
+import Blue.Proofs.StallSelector
 import Blue.Proofs.ConstsTieC20
 /-! # Property C20 — writes keep completing: ingest and compaction never wait on each other forever
 
@@ -19,18 +20,31 @@ driver with every event required to be enabled, `invB` evaluated after every eve
 sleepers compared with the real parked-on registry at the end.
 
 What is proved: deadlock freedom by invariant under `Sel` for every schedule
-(`writes_never_all_parked`), the enabledness and measure halves of "stalled ingest is eventually
-released" (`stalled_has_runner`, `stalled_select_takes`, `finish_shrinks`, `finish_wakes`), "the
-event that creates work wakes every sleeping compaction thread" (`ingest_wakes`), and that `Sel`
-is necessary (`deadlock_when_selector_starves`, D-15) as are the notification
+(`writes_never_all_parked_partial`) and `stalled_has_runner` (invariant: a parked ingester has an
+awake compaction thread) — these two have content.  MODEL FACTS, i.e. one-step unfoldings of
+`step` / `selOK` / `sel` kept for the record and labelled so below: `stalled_select_takes` (`selOK`
+unfolded; its only input is "parked ⇒ stalled" from the invariant), `finish_shrinks` ("relieving"
+= `0 < c` is a hypothesis), `finish_wakes`, `ingest_wakes`, `sel_iff`.  Closed counterexamples show
+that `Sel` is necessary (`deadlock_when_selector_starves`, D-15) as are the notification
 (`deadlock_without_ingest_notify`) and the release of a failed compaction (`abort_releases`,
 `deadlock_when_abort_keeps_entry`).  `Blue.Selector` models `next_compaction().is_some()` on the
-tree metadata (compared with the real selector state by state) and gives `sel`, the
-characterisation of `Sel` on (|L0|, level-1 files under the hull, options): sound for the selector
-model up to one hypothesis (`sel_sound_partial`), it holds on every stalled tree within the file
-limits (`sel_or_overLimit`) and **fails** for option values the store accepts
-(`stall_above_file_limit`, `hull_above_file_limit`, `default_sel_fails_from_53`) — the known
-finding D-15.
+tree metadata (compared with the real selector state by state) and gives `sel`, a SUFFICIENT
+condition for an offer on (|L0|, level-1 files under the hull, options) — not a necessary one
+(`sel_is_not_necessary`: a trivial move is offered where `sel` is false): sound for the selector
+model up to one hypothesis (`sel_sound_partial`); it holds on every tree stalled BY FILE COUNT
+within the file limits when 0 < stall threshold and mandatory threshold ≤ stall threshold
+(`sel_or_overLimit`; the three hypotheses are needed: `sel_or_overLimit_needs_*`), and is false
+above the file limits (`stall_above_file_limit`, `hull_above_file_limit`,
+`default_sel_fails_from_53`) — on such trees `Sel` itself fails when no other compaction is on
+offer: the known finding D-15, at selector-model level one closed example
+(`sel_sound_partial`'s second half).  A second configuration in which `Sel` cannot hold, not
+D-15: a stall threshold of 0 files (`zero_threshold_*`).
+
+The two models are composed by one small bridge only (`selOK_of_tree`, `selOK_within_limits`:
+on a protocol state that shows the tree's level 0 and thresholds — `Matches` — the selector
+model's answer obeys `Sel` for that one selection); there is no theorem about runs of the joined
+system (tree + protocol), and the hand-off of the flush request between a writer and the flush
+thread (`KeyValueStore::state` condvar) has no Lean model at all — it is replayed only.
 
 What is not: wall-clock "eventually" and scheduler fairness are not expressible; the temporal
 statement "every stalled ingest is released" is not formalised (only its enabledness and measure
@@ -63,20 +77,24 @@ theorem inv_checkable {s : St} (h : Inv s) : invB s = true := invB_of_inv h
 theorem stalled_has_runner {s : St} (h : Inv s) (hst : ∃ t ∈ s.ingesters, t = .waiting) :
     ∃ t ∈ s.compactors, t ≠ .waiting := Blue.Stall.stalled_has_runner h hst
 
-/-- … and when it selects on an idle store, `Sel` makes it take a compaction -/
+/-- MODEL FACT (`selOK` unfolded; the only input is "parked ⇒ stalled" from the invariant): … and
+    when it selects on an idle store, `Sel` makes it take a compaction -/
 theorem stalled_select_takes {s : St} (h : Inv s) (hst : ∃ t ∈ s.ingesters, t = .waiting)
     {i : Nat} {a : Bool} (hidle : idle s = true) (hok : selOK s (.select i a) = true) : a = true :=
   Blue.Stall.stalled_select_takes h hst hidle hok
 
-/-- a compaction that takes files out of a non-empty level 0 strictly shrinks it … -/
+/-- MODEL FACT (one-step unfolding of `step`; that the compaction is a relieving one, `0 < c`, is a
+    hypothesis): a compaction that takes files out of a non-empty level 0 strictly shrinks it … -/
 theorem finish_shrinks {s : St} {i c b : Nat} (hin : s.compactors[i]? = some .inflight) (hc : 0 < c)
     (hpos : 0 < s.l0) : (step s (.finish i c b)).l0 < s.l0 := Blue.Stall.finish_shrinks hin hc hpos
 
-/-- … and every applied compaction wakes every parked ingester -/
+/-- MODEL FACT (one-step unfolding of `step`): … and every applied compaction wakes every parked
+    ingester -/
 theorem finish_wakes {s : St} {i c b : Nat} (hin : s.compactors[i]? = some .inflight) :
     ∀ t ∈ (step s (.finish i c b)).ingesters, t ≠ .waiting := Blue.Stall.finish_wakes hin
 
-/-- a compaction thread sleeping for lack of work is woken by the event that creates work -/
+/-- MODEL FACT (one-step unfolding of `step`): a compaction thread sleeping for lack of work is woken
+    by the event that creates work -/
 theorem ingest_wakes {s : St} {i b : Nat} (hn : s.ingestNotifies = true)
     (hrun : s.ingesters[i]? = some .running) (hst : stalled s = false) :
     ∀ t ∈ (step s (.ingest i b)).compactors, t ≠ .waiting := Blue.Stall.ingest_wakes hn hrun hst
@@ -133,12 +151,15 @@ theorem sleeper_with_work :
 open Blue.Selector
 
 /-- `Sel` for one selection from the selector's side: a selector that offers a compaction whenever
-    `sel` holds of the tree it looks at, on trees where stalled implies `sel`, obeys `selOK` -/
+    `sel` holds of the tree it looks at, on trees where stalled implies `sel`, obeys `selOK`.
+    NOTE: `o` and `m` are not related to `s` here (the protocol state carries no tree); the two
+    hypotheses carry the whole link.  `selOK_of_tree` below instantiates them from the selector
+    model on a state that shows the tree. -/
 theorem selOK_of_sel (s : St) (i : Nat) (a : Bool) (o : Opts) (m : Summary)
     (hspec : idle s = true → sel o m = true → a = true) (hcover : stalled s = true → sel o m = true) :
     selOK s (.select i a) = true := Blue.Selector.selOK_of_sel s i a o m hspec hcover
 
-/-- `sel` is what it says: level 0 non-empty, the hull compaction within both file limits, and
+/-- MODEL FACT (`sel` unfolded): level 0 non-empty, the hull compaction within both file limits, and
     mandatory or not losing bytes -/
 theorem sel_iff (o : Opts) (m : Summary) :
     sel o m = true ↔
@@ -153,14 +174,108 @@ theorem sel_sound_partial (o : Opts) (l0 l1 : List File) (rest : List (List File
     (hsel : sel o (summary (l0 :: l1 :: rest)) = true) (hexp : hullChoosable o (l0 :: l1 :: rest) = true) :
     nextSome o (l0 :: l1 :: rest) = true := Blue.Selector.sel_sound_partial o l0 l1 rest hsel hexp
 
-/-- on a stalled level 0 with the mandatory threshold not above the stall threshold, `sel` fails
-    only through a file limit -/
+/-- **the two models composed, one selection**: on a protocol state that shows the tree's level 0
+    and the options' thresholds (`Matches`; then `Blue.Stall.stalled s = Blue.Selector.shouldStall o t`),
+    the event "the selector answered what the selector model answers" obeys `Sel`, if `sel` holds of
+    the tree whenever ingest is stalled on it and the hull compaction is choosable -/
+theorem selOK_of_tree (s : St) (i : Nat) (o : Opts) (l0 l1 : List File) (rest : List (List File))
+    (hm : Matches s o (l0 :: l1 :: rest))
+    (hcover : shouldStall o (l0 :: l1 :: rest) = true → sel o (summary (l0 :: l1 :: rest)) = true)
+    (hexp : hullChoosable o (l0 :: l1 :: rest) = true) :
+    selOK s (.select i (nextSome o (l0 :: l1 :: rest))) = true :=
+  Blue.Selector.selOK_of_tree s i o l0 l1 rest hm hcover hexp
+
+theorem stalled_eq_shouldStall {s : St} {o : Opts} {t : Tree} (h : Matches s o t) :
+    stalled s = shouldStall o t := Blue.Selector.stalled_eq_shouldStall h
+
+/-- … in particular within the file limits, for a stall by file count, with a positive stall
+    threshold not below the mandatory threshold -/
+theorem selOK_within_limits (s : St) (i : Nat) (o : Opts) (l0 l1 : List File) (rest : List (List File))
+    (hm : Matches s o (l0 :: l1 :: rest)) (hpos : 0 < o.stallFiles) (hmand : o.mandFiles ≤ o.stallFiles)
+    (hcount : shouldStall o (l0 :: l1 :: rest) = true → o.stallFiles ≤ l0.length)
+    (hlim : overLimit o (summary (l0 :: l1 :: rest)) = false)
+    (hexp : hullChoosable o (l0 :: l1 :: rest) = true) :
+    selOK s (.select i (nextSome o (l0 :: l1 :: rest))) = true :=
+  Blue.Selector.selOK_within_limits s i o l0 l1 rest hm hpos hmand hcount hlim hexp
+
+/-- non-vacuity of the composed statement: a protocol state stalled at 2 files that shows a
+    two-level tree (two overlapping level-0 files over one level-1 file) within all limits -/
+example :
+    let t : Tree := [[⟨0, [1], [5], 10, 7⟩, ⟨1, [2], [6], 10, 9⟩], [⟨2, [0], [3], 30, 3⟩]]
+    let o : Opts := ⟨100, 1000, 8, 2, 1000, 2, 1000⟩
+    let s : St := ⟨2, 1000, 2, 20, [.waiting], [.running], false, true, 0, true⟩
+    stalled s = true ∧ shouldStall o t = true ∧ overLimit o (summary t) = false ∧ hullChoosable o t = true
+      ∧ nextSome o t = true ∧ selOK s (.select 0 (nextSome o t)) = true := by decide
+example : Matches (⟨2, 1000, 2, 20, [.waiting], [.running], false, true, 0, true⟩ : St) ⟨100, 1000, 8, 2, 1000, 2, 1000⟩
+    [[⟨0, [1], [5], 10, 7⟩, ⟨1, [2], [6], 10, 9⟩], [⟨2, [0], [3], 30, 3⟩]] := ⟨rfl, rfl, rfl, rfl⟩
+
+/-- on a level 0 stalled BY FILE COUNT, with a positive stall threshold and the mandatory threshold
+    not above it, `sel` fails only through a file limit -/
 theorem sel_or_overLimit (o : Opts) (m : Summary) (hpos : 0 < o.stallFiles)
     (hmand : o.mandFiles ≤ o.stallFiles) (hst : o.stallFiles ≤ m.l0) :
     sel o m = true ∨ overLimit o m = true := Blue.Selector.sel_or_overLimit o m hpos hmand hst
 
+/-- the hypotheses of `sel_or_overLimit` are needed: (1) mandatory threshold above the stall
+    threshold (10 > 2): a tree stalled by file count within all limits on which `sel` is false -/
+theorem sel_or_overLimit_needs_mand_le_stall :
+    let o : Opts := ⟨100, 1000, 8, 10, 100000, 2, 100000⟩
+    let m : Summary := ⟨2, 20, 1, 400, false⟩
+    o.stallFiles ≤ m.l0 ∧ sel o m = false ∧ overLimit o m = false := by decide
+
+/-- (2) a stall by BYTES only (1 file of 20 bytes, stall at 10 bytes / 12 files) -/
+theorem sel_or_overLimit_needs_stall_by_count :
+    let o : Opts := ⟨100, 1000, 8, 4, 100000, 12, 10⟩
+    let m : Summary := ⟨1, 20, 1, 400, false⟩
+    decide (m.l0b ≥ o.stallBytes) = true ∧ sel o m = false ∧ overLimit o m = false := by decide
+
+/-- (3) a stall threshold of 0: stalled on the empty tree, the selector model offers nothing, `sel`
+    and `overLimit` are both false -/
+theorem sel_or_overLimit_needs_pos_threshold :
+    let o : Opts := ⟨100, 1000, 8, 4, 100000, 0, 100000⟩
+    let t : Tree := [[], [], [], []]
+    shouldStall o t = true ∧ nextSome o t = false ∧ sel o (summary t) = false ∧ overLimit o (summary t) = false := by
+  decide
+
+/-- `sel` is sufficient for an offer, not necessary: a stalled tree with `sel = false` (not
+    mandatory, the hull compaction loses bytes) on which the selector model still offers a
+    compaction (a trivial move) -/
+theorem sel_is_not_necessary :
+    let o : Opts := ⟨100, 1000, 8, 10, 100000, 2, 100000⟩
+    let t : Tree := [[⟨0, [1], [5], 10, 7⟩, ⟨1, [2], [6], 10, 9⟩], [⟨2, [0], [9], 400, 3⟩], []]
+    sel o (summary t) = false ∧ overLimit o (summary t) = false ∧ shouldStall o t = true ∧ nextSome o t = true := by
+  decide
+
+/-! ### a stall threshold of 0 (accepted by the store; not D-15) -/
+
+/-- with `l0_write_stall_threshold_files = 0` ingest is stalled in every state (`should_stall_ingest`
+    compares with `>=`) … -/
+theorem zero_threshold_always_stalled (s : St) (h : s.stallAt = 0) : stalled s = true :=
+  Blue.Stall.zero_threshold_always_stalled s h
+
+/-- … no ingest ever installs a file … -/
+theorem zero_threshold_never_ingests (s : St) (i b : Nat) (h : s.stallAt = 0) :
+    (step s (.ingest i b)).l0 = s.l0 ∧ (step s (.ingest i b)).compactors = s.compactors :=
+  Blue.Stall.zero_threshold_never_ingests s i b h
+
+/-- … `Sel` demands a compaction of an idle store whatever its tree, while `sel` is false on an empty
+    level 0 and the selector model offers nothing on the empty tree
+    (`sel_or_overLimit_needs_pos_threshold`) … -/
+theorem zero_threshold_sel_demands (s : St) (i : Nat) (h : s.stallAt = 0) (hidle : idle s = true) :
+    selOK s (.select i false) = false := Blue.Stall.zero_threshold_sel_demands s i h hidle
+
+theorem sel_false_of_empty_l0 (o : Opts) (m : Summary) (h : m.l0 = 0) : sel o m = false :=
+  Blue.Selector.sel_false_of_empty_l0 o m h
+
+/-- … and the first ingest and the compaction thread of a fresh store put each other to sleep -/
+theorem zero_threshold_deadlock :
+    let s0 : St := ⟨0, 1000, 0, 0, [.running], [.running], false, true, 0, true⟩
+    let evs := [Ev.ingest 0 10, .select 0 false]
+    deadlocked (evs.foldl step s0) = true ∧ runSel s0 evs = false ∧ (evs.foldl step s0).l0 = 0 :=
+  Blue.Stall.zero_threshold_deadlock
+
 /-- **D-15**: with `l0_write_stall_threshold_files > max_compaction_files` every tree on which
-    ingest waits is over the limit, `sel` fails on all of them … -/
+    ingest waits is over the limit, `sel` is false on all of them (that the selector then offers
+    NOTHING is a statement about the selector model, shown on examples: `sel` is only sufficient) … -/
 theorem stall_above_file_limit (o : Opts) (m : Summary) (h : o.maxCompactionFiles < o.stallFiles)
     (hst : o.stallFiles ≤ m.l0) : overLimit o m = true ∧ sel o m = false :=
   Blue.Selector.stall_above_file_limit o m h hst
@@ -244,7 +359,19 @@ end Blue.Props.C20
 #print axioms Blue.Props.C20.selOK_of_sel
 #print axioms Blue.Props.C20.sel_iff
 #print axioms Blue.Props.C20.sel_sound_partial
+#print axioms Blue.Props.C20.selOK_of_tree
+#print axioms Blue.Props.C20.stalled_eq_shouldStall
+#print axioms Blue.Props.C20.selOK_within_limits
 #print axioms Blue.Props.C20.sel_or_overLimit
+#print axioms Blue.Props.C20.sel_or_overLimit_needs_mand_le_stall
+#print axioms Blue.Props.C20.sel_or_overLimit_needs_stall_by_count
+#print axioms Blue.Props.C20.sel_or_overLimit_needs_pos_threshold
+#print axioms Blue.Props.C20.sel_is_not_necessary
+#print axioms Blue.Props.C20.zero_threshold_always_stalled
+#print axioms Blue.Props.C20.zero_threshold_never_ingests
+#print axioms Blue.Props.C20.zero_threshold_sel_demands
+#print axioms Blue.Props.C20.sel_false_of_empty_l0
+#print axioms Blue.Props.C20.zero_threshold_deadlock
 #print axioms Blue.Props.C20.stall_above_file_limit
 #print axioms Blue.Props.C20.hull_above_file_limit
 #print axioms Blue.Props.C20.default_sel_fails_from_53
